@@ -10,9 +10,9 @@
    (and, for the pool, over arbitrary left-over `_errors`).  They are true because the repaired code resets / does not
    write that state - the `*_old_code_refuted` theorems show the same statements false for the code before the repairs. *)
 From Coq Require Import String.
-From GV Require Import Prelude.Base Model.PyVal Model.UiRules Model.Enforcers
-     Proofs.PyValProofs Proofs.UiRulesProofs Proofs.EnforcersProofs Proofs.ValidatorsProofs Proofs.OneOfProofs.
-From GVgen Require Import PyLite_SharedUtils PyLite_UiUtils PyLite_Validators.
+From GV Require Import Prelude.Base Model.PyVal Model.UiRules Model.Enforcers Model.UiForms Model.UiCodec Model.IfValidate Model.FormParams
+     Proofs.PyValProofs Proofs.UiRulesProofs Proofs.EnforcersProofs Proofs.ValidatorsProofs Proofs.OneOfProofs Proofs.FormParamsProofs.
+From GVgen Require Import PyLite_SharedUtils PyLite_UiUtils PyLite_Validators PyLite_Validation Table_UiValidations.
 Local Open Scope string_scope.
 
 (* ---- the required / optional / enabled / dependency / group rules that decide whether None is allowed ---- *)
@@ -142,3 +142,31 @@ Print Assumptions C15_param_old_code_refuted.
 Theorem C15_oneof_old_code_refuted : ~ IvStateless (iv_validate_data_gen true no_world no_opts).
 Proof. exact oneof_old_refuted. Qed.
 Print Assumptions C15_oneof_old_code_refuted.
+
+(* ---- FormParameter members (forms.py / descriptors.py): state = stored values + extra members + active members ---- *)
+
+(* a rejected member value leaves the stored values, the extra members and the active list exactly as they were *)
+Theorem C15_form_rejected_member_unchanged : forall f m v e,
+  snd (form_set f m v) = Raise e -> fview (fst (form_set f m v)) = fview f.
+Proof. exact form_set_reject_keeps. Qed.
+Print Assumptions C15_form_rejected_member_unchanged.
+
+(* an accepted one is marked active (the value itself always is) and touches nothing else *)
+Theorem C15_form_accepted_member_marked : forall f m v p, assoc_s m (f_members f) = Some p -> snd (form_set f m v) = Ok tt ->
+  f_active (fst (form_set f m v)) = (if String.eqb m "value" then f_active f else (f_active f ++ [m])%list)
+  /\ f_extra (fst (form_set f m v)) = f_extra f.
+Proof. exact form_set_accept. Qed.
+Print Assumptions C15_form_accepted_member_marked.
+
+(* the verdict for a member depends only on the enforcers behind it, whatever was set or rejected on the form before *)
+Theorem C15_form_member_stateless : forall f g m v p q,
+  assoc_s m (f_members f) = Some p -> assoc_s m (f_members g) = Some q -> p_enf (pm_pool p) = p_enf (pm_pool q) ->
+  snd (form_set f m v) = snd (form_set g m v).
+Proof. exact form_set_stateless. Qed.
+Print Assumptions C15_form_member_stateless.
+
+(* the other order - mark the member active, then validate - is refuted: the first statement discriminates *)
+Theorem C15_form_mark_first_refuted :
+  ~ (forall f m v e, snd (form_set_gen true f m v) = Raise e -> fview (fst (form_set_gen true f m v)) = fview f).
+Proof. exact form_set_mark_first_refuted. Qed.
+Print Assumptions C15_form_mark_first_refuted.
